@@ -2,7 +2,7 @@ import BfeVerif.C27.Proofs
 import BfeVerif.C28.Model
 /-! Lemmas for C28 (core Lean only). -/
 namespace BfeVerif.C28
-open BfeVerif.C27 (respond)
+open BfeVerif.C27 (respond Bytes render Act)
 
 /-- the response writer closes after an `Expect: 100-continue` request that never got its `100 Continue` -/
 theorem respond_close_of_unanswered (rq : BfeVerif.C27.Req) (ka : Bool) (script : List BfeVerif.C27.Act)
@@ -17,53 +17,65 @@ def noBad : List Seg → Bool
   | .req r :: t => (match r.body with | .bad _ => false | _ => true) && noBad t
   | _ :: t => noBad t
 
-/-- client conformance: a body is omitted only after `Expect: 100-continue` on HTTP/1.1, and only
-    when the server (handler) never asked for it by reading (which sends `100 Continue`) -/
+/-- client conformance: a body is held back only after `Expect: 100-continue` on HTTP/1.1, and then
+    either by a waiting client (sends it once `100 Continue` arrives) or, pipelining on, only when the
+    server (handler) never asks for it by reading (which sends `100 Continue`) -/
 def clientOK : List Seg → List Script → Bool
   | [], _ => true
   | .req r :: t, scs =>
-    (r.sent || (r.expect == .cont && r.proto11 && (scs.headD defaultScript).read == .no)) && clientOK t scs.tail
+    (r.sent || (r.expect == .cont && r.proto11 && (r.waits || !(scs.headD defaultScript).reads))) && clientOK t scs.tail
   | _ :: t, scs => clientOK t scs.tail
 
-theorem serveOne_open_sent (ka : Bool) (r : ReqD) (sc : Script)
-    (hc : (r.sent || (r.expect == .cont && r.proto11 && sc.read == .no)) = true)
-    (ho : (serveOne ka r sc).2 = true) : r.sent = true := by
+/-- if the loop goes on after a request, that request's body bytes were on the wire -/
+theorem serveOne_open_onWire (ka : Bool) (r : ReqD) (sc : Script)
+    (hc : (r.sent || (r.expect == .cont && r.proto11 && (r.waits || !sc.reads))) = true)
+    (ho : (serveOne ka r sc).2 = true) : onWire r (wroteCont r sc) = true := by
+  unfold onWire
   cases hs : r.sent with
   | true => rfl
   | false =>
-    exfalso
-    simp only [hs, Bool.false_or, Bool.and_eq_true, beq_iff_eq] at hc
-    obtain ⟨⟨he, hp⟩, hr⟩ := hc
-    unfold serveOne at ho
-    simp only [he, hp, hr] at ho
-    cases ha : sc.act with
-    | closeDirect => simp [ha] at ho
-    | finish => simp [ha] at ho
-    | respond st fc fk fl len split =>
-      simp only [ha] at ho
-      have := respond_close_of_unanswered
-        { isHead := r.method == 1, proto11 := true, conn := connStr r.conn, clNonZero := clNonZero r.body,
-          bodyLeft := bodyDecoded r.body, expecter := true, wroteContinue := false } ka
-        (respondScript st fc fk fl len split) rfl rfl
-      simp_all
+    simp only [hs, Bool.false_or, Bool.and_eq_true, beq_iff_eq, Bool.or_eq_true, Bool.not_eq_true'] at hc
+    obtain ⟨⟨he, hp⟩, hw⟩ := hc
+    cases hwc : wroteCont r sc with
+    | true =>
+      have hr : sc.reads = true := by
+        unfold wroteCont at hwc
+        simp only [Bool.and_eq_true] at hwc
+        exact hwc.1.2
+      rcases hw with hw | hw
+      · simp [hw]
+      · rw [hr] at hw; exact absurd hw (by decide)
+    | false =>
+      exfalso
+      unfold serveOne at ho
+      simp only [he, hp, hwc] at ho
+      cases ha : sc.act with
+      | closeDirect => simp [ha] at ho
+      | finish => simp [ha] at ho
+      | respond st fc fk fl len split =>
+        simp only [ha] at ho
+        simp only [Bool.and_eq_true, Bool.not_eq_true'] at ho
+        have h1 := ho.1
+        rw [respond_close_of_unanswered _ _ _ (by simp) (by simp)] at h1
+        exact absurd h1 (by decide)
 
-theorem rfcStartFrom_ge : ∀ (segs : List Seg) (pos i k p : Nat),
-    rfcStartFrom pos i segs k = some p → i ≤ k := by
+theorem rfcStartFrom_ge : ∀ (segs : List Seg) (conts : List Bool) (pos i k p : Nat),
+    rfcStartFrom pos i segs conts k = some p → i ≤ k := by
   intro segs
   induction segs with
   | nil =>
-    intro pos i k p h
+    intro conts pos i k p h
     unfold rfcStartFrom at h
     by_cases hk : k = i
     · omega
     · simp [hk] at h
   | cons s t ih =>
-    intro pos i k p h
+    intro conts pos i k p h
     unfold rfcStartFrom at h
     by_cases hk : k = i
     · omega
     · simp only [beq_iff_eq, hk, if_false] at h
-      cases hl : rfcLen i s with
+      cases hl : rfcLen i (hd conts) s with
       | none => simp [hl] at h
       | some l =>
         simp only [hl] at h
@@ -73,7 +85,8 @@ theorem rfcStartFrom_ge : ∀ (segs : List Seg) (pos i k p : Nat),
 
 theorem serveFrom_starts (ka : Bool) : ∀ (segs : List Seg) (pos i : Nat) (scs : List Script) (o : Out),
     noBad segs = true → clientOK segs scs = true →
-    ∀ e ∈ (serveFrom ka pos i segs scs o).starts, e ∈ o.starts ∨ rfcStartFrom pos i segs e.2 = some e.1 := by
+    ∀ e ∈ (serveFrom ka pos i segs scs o).starts,
+      e ∈ o.starts ∨ rfcStartFrom pos i segs (contList segs scs) e.2 = some e.1 := by
   intro segs
   induction segs with
   | nil => intro pos i scs o _ _ e he; exact Or.inl (by simpa [serveFrom] using he)
@@ -92,31 +105,34 @@ theorem serveFrom_starts (ka : Bool) : ∀ (segs : List Seg) (pos i : Nat) (scs 
         · exact Or.inl he
         · have hnb' : (match r.body with | .bad _ => false | _ => true) = true ∧ noBad t = true := by
             simpa [noBad] using hnb
-          have hck' : (r.sent || (r.expect == .cont && r.proto11 && (scs.headD defaultScript).read == .no)) = true
+          have hck' : (r.sent || (r.expect == .cont && r.proto11 && (r.waits || !(scs.headD defaultScript).reads))) = true
               ∧ clientOK t scs.tail = true := by simpa [clientOK] using hck
-          have hhere : rfcStartFrom pos i (Seg.req r :: t) i = some pos := by
+          have hhere : rfcStartFrom pos i (Seg.req r :: t) (contList (Seg.req r :: t) scs) i = some pos := by
             unfold rfcStartFrom; simp
           split at he
           · rename_i hopen
-            have hsent := serveOne_open_sent ka r _ hck'.1 hopen
+            have hwire := serveOne_open_onWire ka r _ hck'.1 hopen
             rcases ih _ _ _ _ hnb'.2 hck'.2 e he with h | h
             · simp only [List.mem_append, List.mem_singleton] at h
               rcases h with h | h
               · exact Or.inl h
               · subst h; exact Or.inr hhere
             · right
-              have hge := rfcStartFrom_ge _ _ _ _ _ h
+              have hge := rfcStartFrom_ge _ _ _ _ _ _ h
               unfold rfcStartFrom
               have hk : ¬ e.2 = i := by omega
               have hlt : ¬ e.2 < i := by omega
-              have hlen : rfcLen i (Seg.req r) = some (hdrLen i r + bodyWire r.body) := by
+              have hlen : rfcLen i (wroteCont r (scs.headD defaultScript)) (Seg.req r)
+                  = some (hdrLen i r + bodyWire r.body) := by
                 unfold rfcLen
+                simp only []
+                rw [hwire]
                 cases hb : r.body with
                 | bad ss => simp [hb] at hnb'
-                | none => simp [hsent, hb]
-                | len n => simp [hsent, hb]
-                | chunked ss tr => simp [hsent, hb]
-              simp only [beq_iff_eq, hk, if_false, hlen, hlt]
+                | none => simp [hb]
+                | len n => simp [hb]
+                | chunked ss tr => simp [hb]
+              simp only [beq_iff_eq, hk, if_false, contList, hd, List.tail_cons, hlen, hlt]
               rw [← h]; congr 1; omega
           · simp only [List.mem_append, List.mem_singleton] at he
             rcases he with h | h
@@ -148,5 +164,69 @@ theorem serveFrom_order (ka : Bool) : ∀ (segs : List Seg) (pos i : Nat) (scs :
             rw [hn]
             simp [List.range'_succ]
           · exact ⟨1, by simp [List.range'_succ]⟩
+
+/-- the reply conn.serve gives to a message it does not hand to the handler (`none`: it is handed over) -/
+def unhandledReply (ka : Bool) : Seg → Option Bytes
+  | .garbage => some reply400
+  | .longUri => some reply414
+  | .longHdr => some reply413
+  | .req r =>
+    let expecter := r.expect == .cont && r.proto11
+    if r.expect == .cont && !clNonZero r.body then
+      let rq : BfeVerif.C27.Req := { isHead := r.method == 1, proto11 := r.proto11, conn := connStr r.conn,
+                                      clNonZero := false, bodyLeft := 0, expecter := expecter }
+      some (render (respond rq ka [Act.set "Connection" "close", Act.writeHeader 400]))
+    else if r.expect == .unknown then
+      let rq : BfeVerif.C27.Req := { isHead := r.method == 1, proto11 := r.proto11, conn := connStr r.conn,
+                                      clNonZero := clNonZero r.body, bodyLeft := bodyDecoded r.body }
+      some (render (respond rq ka [Act.set "Connection" "close", Act.writeHeader 417]))
+    else none
+
+/-- the bytes the first `n` messages produce when each is answered by its own script, in order:
+    exactly one `serveOne` block (optional `100 Continue` + at most one final response) per request -/
+def blocks (ka : Bool) : Nat → List Seg → List Script → Bytes
+  | n + 1, .req r :: t, scs => (serveOne ka r (scs.headD defaultScript)).1 ++ blocks ka n t scs.tail
+  | _, _, _ => []
+
+/-- the tail after the handled prefix: nothing, or the one error reply to the first unhandled message -/
+def TailOk (ka : Bool) (rest : List Seg) (tail : Bytes) : Prop :=
+  tail = [] ∨ ∃ s t, rest = s :: t ∧ unhandledReply ka s = some tail
+
+theorem serveFrom_transcript (ka : Bool) : ∀ (segs : List Seg) (pos i : Nat) (scs : List Script) (o : Out),
+    ∃ n tail, n ≤ segs.length ∧
+      (serveFrom ka pos i segs scs o).starts.map Prod.snd = o.starts.map Prod.snd ++ List.range' i n ∧
+      (serveFrom ka pos i segs scs o).bytes = o.bytes ++ blocks ka n segs scs ++ tail ∧
+      TailOk ka (segs.drop n) tail := by
+  intro segs
+  induction segs with
+  | nil => intro pos i scs o; exact ⟨0, [], by simp, by simp [serveFrom], by simp [serveFrom, blocks], Or.inl rfl⟩
+  | cons s t ih =>
+    intro pos i scs o
+    cases s with
+    | garbage => exact ⟨0, reply400, by simp, by simp [serveFrom], by simp [serveFrom, blocks],
+        Or.inr ⟨_, _, rfl, rfl⟩⟩
+    | longUri => exact ⟨0, reply414, by simp, by simp [serveFrom], by simp [serveFrom, blocks],
+        Or.inr ⟨_, _, rfl, rfl⟩⟩
+    | longHdr => exact ⟨0, reply413, by simp, by simp [serveFrom], by simp [serveFrom, blocks],
+        Or.inr ⟨_, _, rfl, rfl⟩⟩
+    | req r =>
+      unfold serveFrom
+      simp only []
+      split
+      · rename_i h1
+        exact ⟨0, (unhandledReply ka (.req r)).getD [], by simp, by simp, by simp [blocks, unhandledReply, h1],
+          Or.inr ⟨_, _, rfl, by simp [unhandledReply, h1]⟩⟩
+      · rename_i h1
+        split
+        · rename_i h2
+          exact ⟨0, (unhandledReply ka (.req r)).getD [], by simp, by simp, by simp [blocks, unhandledReply, h1, h2],
+            Or.inr ⟨_, _, rfl, by simp [unhandledReply, h1, h2]⟩⟩
+        · split
+          · obtain ⟨n, tail, hn, hs, hb, ht⟩ := ih (pos + hdrLen i r + bodyWire r.body) (i + 1) scs.tail
+              { starts := o.starts ++ [(pos, i)], bytes := o.bytes ++ (serveOne ka r (scs.headD defaultScript)).1 }
+            refine ⟨n + 1, tail, by simp; omega, ?_, ?_, by simpa using ht⟩
+            · rw [hs]; simp [List.range'_succ]
+            · rw [hb]; simp [blocks]
+          · exact ⟨1, [], by simp, by simp [List.range'_succ], by simp [blocks], Or.inl rfl⟩
 
 end BfeVerif.C28
